@@ -5,7 +5,9 @@ import time
 
 EFF = {"pa": "print('a')", "pae": "print('a', end='')", "pn": "print()", "pas": "print('a ')",
        "pab": "print('a', 'b', sep='\\t')", "w": "sys.stdout.write('b')", "sp": "print('  ')",
-       "pnn": "print('\\n')", "in": "v = input('p')", "st": "sys.settrace(None)"}
+       "pnn": "print('\\n')", "in": "v = input('p')", "st": "sys.settrace(None)",
+       "im": "import helper_mod"}
+HELPER_MOD = "def helper_value():\n    return 41\nLOADED = helper_value() + 1\n"
 MODE_STMT = {"normal": "pass", "exc": "raise ValueError('boom')", "excBrokenStr": "raise BrokenStr()",
              "excBrokenRepr": "raise BrokenRepr()", "exit": "exit()", "sysexit": "sys.exit(3)",
              "raiseSysExit": "raise SystemExit", "recursion": "rec()", "syntax": "x = (",
@@ -114,7 +116,8 @@ class Harness:
         self.file = file
         self.src, self.where = concretise(file)
         self.report = Report()
-        self.report.contextualize(Submission(files={"answer.py": self.src}))
+        self.report.contextualize(Submission(files={"answer.py": self.src, "helper_mod.py": HELPER_MOD},
+                                             main_file="answer.py", main_code=self.src))
         self.sandbox = self.report["sandbox"]["sandbox"]
         self.sandbox.allowed_time = 5
         self.threaded = bool(file.get("threaded", False))
